@@ -256,6 +256,22 @@ def step (line : String) : String :=
       match (ParamVal.perChannel (pairsSF kvs)).select illum with
       | .plain x => "plain " ++ sF x
       | .perChannel _ => "perchannel"
+  | "mielens" :: pol :: kz :: rest =>
+      let rec goML : List Float → List Float
+        | a :: b :: c :: d :: ph :: r =>
+          let e := mielensPoint (⟨a, b⟩ : Cx Float) ⟨c, d⟩ ph (pF pol) (pF kz)
+          flatCx [e.1, e.2.1, e.2.2] ++ goML r
+        | _ => []
+      sFs (goML (rest.map pF))
+  | ["lrtoxyz", a, b, c, d, pol] =>
+      let e := lrToXyz (⟨pF a, pF b⟩ : Cx Float) ⟨pF c, pF d⟩ (pF pol); sFs (flatCx [e.1, e.2.1, e.2.2])
+  | "lenspoint" :: krho :: phiP :: kz :: pol :: rest =>
+      let rec nodes : List Float → List (Float × Float × Float × Float × Cx Float × Cx Float × Cx Float × Cx Float)
+        | th :: pq :: wt :: wp :: a :: b :: c :: d :: e :: f :: g :: h :: r =>
+          (th, pq, wt, wp, ⟨a, b⟩, ⟨c, d⟩, ⟨e, f⟩, ⟨g, h⟩) :: nodes r
+        | _ => []
+      let e := lensPoint (nodes (rest.map pF)) (pF krho) (pF phiP) (pF kz) (pF pol)
+      sFs (flatCx [e.1, e.2.1, e.2.2])
   | ["incfield", ex, ey, phi] => let r := incfield (pF ex) (pF ey) (pF phi); sFs [r.1, r.2]
   | ["fieldstocart", a, b, c, d, th, ph] =>
       let r := fieldstocart (⟨pF a, pF b⟩ : Cx Float) ⟨pF c, pF d⟩ (pF th) (pF ph); sFs (flatCx [r.1, r.2.1, r.2.2])
